@@ -19,7 +19,7 @@ func init() {
 			"(4) the begin hand-off in RegistryImpl.Begin is an unbuffered rendezvous whose timeout arm rolls the late transaction back; " +
 			"(5) the sweeper marks a transaction stale when age > ttl or idle > idle-ttl (both comparisons present, right operands, right polarity).",
 		NotDecided: "timing (when the sweeper runs, the 10 s / 30 s constants), liveness for all call sequences, the begin goroutine's error returns that never reach the caller (reported as info).",
-		Rules:      []func(*Ctx, *Reporter){ruleTxFinishOnce, ruleTxRelease, ruleTxLockWriters, ruleTxOrphanRemoval, ruleTxBeginHandoff, ruleTxStale},
+		Rules:      []func(*Ctx, *Reporter){ruleTxFinishOnce, ruleTxRelease, ruleTxLockWriters, ruleTxOrphanRemoval, ruleTxBeginHandoff, ruleTxStale, ruleLockReleasedOnEveryExit},
 	})
 	register(&PropertyDef{
 		ID: "C04",
